@@ -64,12 +64,39 @@ fn block<F: std::future::Future>(f: F) -> Option<F::Output> {
     None
 }
 
+/// The transport script of a case: given event by event, or generated ("gen": {"n", "burst"}):
+/// n replies `{"parameters":{"id":i}}` in bursts of `burst` replies per read, then one unrelated
+/// frame (id 7000000), then end-of-file. Flags may likewise be generated ("gen_flags": n plain calls).
+fn events_of(case: &Value) -> std::collections::VecDeque<Ev> {
+    if let Some(g) = case.get("gen") {
+        let n = g["n"].as_u64().unwrap() as usize;
+        let burst = g["burst"].as_u64().unwrap().max(1) as usize;
+        let mut evs = std::collections::VecDeque::new();
+        let mut cur: Vec<u8> = Vec::new();
+        for i in 0..n {
+            cur.extend_from_slice(format!("{{\"parameters\":{{\"id\":{}}}}}\0", i).as_bytes());
+            if (i + 1) % burst == 0 {
+                evs.push_back(Ev::Data(std::mem::take(&mut cur)));
+            }
+        }
+        cur.extend_from_slice(b"{\"parameters\":{\"id\":7000000}}\0");
+        evs.push_back(Ev::Data(cur));
+        evs.push_back(Ev::Eof);
+        evs
+    } else {
+        parse_events(&case["events"])
+    }
+}
+
 macro_rules! run_chain {
     ($case:expr, $P:ty) => {{
         let case: &Value = $case;
-        let flags: Vec<String> = case["flags"].as_array().unwrap().iter().map(|f| f.as_str().unwrap().to_string()).collect();
+        let flags: Vec<String> = match case.get("gen_flags").and_then(|n| n.as_u64()) {
+            Some(n) => vec!["plain".to_string(); n as usize],
+            None => case["flags"].as_array().unwrap().iter().map(|f| f.as_str().unwrap().to_string()).collect(),
+        };
         let after = case["after"].as_u64().unwrap_or(0) as usize;
-        let (sock, sh) = SSocket::new(parse_events(&case["events"]));
+        let (sock, sh) = SSocket::new(events_of(case));
         let mut conn = Connection::new(sock);
         let pads: Vec<usize> = case.get("pads").and_then(|p| p.as_array())
             .map(|a| a.iter().map(|x| x.as_u64().unwrap() as usize).collect()).unwrap_or_default();
@@ -95,6 +122,9 @@ macro_rules! run_chain {
         let mut items = Vec::new();
         let mut ended = false;
         let mut stuck = false;
+        let max_items = case.get("max_items").and_then(|m| m.as_u64()).unwrap_or(5000) as usize;
+        // "slim": long chains — report counts and digests instead of every item and byte
+        let slim = case.get("slim").and_then(|m| m.as_bool()).unwrap_or(false);
         let mut send_err = Value::Null;
         let mut reads_at_end = 0usize;
         {
@@ -106,7 +136,7 @@ macro_rules! run_chain {
                 Err(e) => send_err = Value::String(err_name(&e)),
                 Ok(stream) => {
                     let mut stream = std::pin::pin!(stream);
-                    'outer: for _ in 0..5000 {
+                    'outer: for _ in 0..max_items {
                         loop {
                             let mut nx = stream.next();
                             match poll_once(std::pin::Pin::new(&mut nx)) {
@@ -153,11 +183,32 @@ macro_rules! run_chain {
                 }
             }
         }
-        let (rp, mp, cap) = conn.read().verif_state();
-        let writes: Vec<String> = sh.borrow().writes.iter().map(|w| hex(w)).collect();
-        json!({"items": items, "ended": ended, "stuck": stuck, "send_err": send_err,
-               "reads_at_end": reads_at_end, "after": after_ops, "final_st": [cap, mp, rp],
-               "writes": writes, "expected_write": hex(&expected_write)})
+        #[cfg(zlink_verif)]
+        let final_st = {
+            let (rp, mp, cap) = conn.read().verif_state();
+            json!([cap, mp, rp])
+        };
+        #[cfg(not(zlink_verif))]
+        let final_st = Value::Null;
+        if slim {
+            let s = sh.borrow();
+            let all: Vec<u8> = s.writes.iter().flatten().copied().collect();
+            let mut hist = std::collections::BTreeMap::new();
+            for it in &items {
+                let k = it["res"].as_str().unwrap_or("?").split(':').next().unwrap().to_string();
+                *hist.entry(k).or_insert(0u64) += 1;
+            }
+            json!({"n_items": items.len(), "item_kinds": hist, "ended": ended, "stuck": stuck, "send_err": send_err,
+                   "reads_at_end": reads_at_end, "after": after_ops, "final_st": final_st,
+                   "n_writes": s.writes.len(), "write_ok": all == expected_write,
+                   "first_items": items.iter().take(3).collect::<Vec<_>>(),
+                   "last_items": items.iter().rev().take(3).collect::<Vec<_>>()})
+        } else {
+            let writes: Vec<String> = sh.borrow().writes.iter().map(|w| hex(w)).collect();
+            json!({"items": items, "ended": ended, "stuck": stuck, "send_err": send_err,
+                   "reads_at_end": reads_at_end, "after": after_ops, "final_st": final_st,
+                   "writes": writes, "expected_write": hex(&expected_write)})
+        }
     }};
 }
 
@@ -168,9 +219,11 @@ fn run_case(case: &Value) -> Value {
         _ => run_chain!(case, Value),
     };
     let mut payload = Vec::new();
-    for e in parse_events(&case["events"]) {
-        if let Ev::Data(d) = e {
-            payload.extend_from_slice(&d);
+    if case.get("slim").is_none() {
+        for e in events_of(case) {
+            if let Ev::Data(d) = e {
+                payload.extend_from_slice(&d);
+            }
         }
     }
     let mut segs = serde_json::Map::new();
